@@ -153,7 +153,8 @@ def r4_consider_computable(ctx):
     ctx.evals(len(paths))
     for p in paths:
         if p.exit[0] != "return":
-            ctx.undecided("C02.R4", loc(fi), f"consider_computable raises on the model state: {p.exit}")
+            ctx.violation("C02.R4", fi.qual, loc(fi), "consider_computable completes",
+                          f"publishing a dataset on a consistent model state makes consider_computable end with {p.exit[0]} {vkey(p.exit[1])[:60]} (controller bookkeeping crash)")
             continue
         c = p.heap["state.components"][0]
         comp_after = set(c.fields["computable"].keys())
@@ -182,7 +183,7 @@ def r5_act(ctx):
     ctx.evals(len(paths))
     for p in paths:
         if p.exit[0] != "return":
-            ctx.undecided("C02.R5", loc(fi), f"act raises on the model assignment: {p.exit}")
+            ctx.violation("C02.R5", fi.qual, loc(fi), "act completes", f"act() ends with {p.exit[0]} {vkey(p.exit[1])[:60]} on a well-formed assignment")
             continue
         tx = [e.data["args"] for e in p.effects if is_call(e, qual=f"{BR}.transmit")]
         ts = [e.data["args"] for e in p.effects if is_call(e, qual=f"{BR}.task_sequence")]
@@ -287,7 +288,8 @@ def r7_reidle(ctx):
                 complete = tx is None and last
                 for p in paths:
                     if p.exit[0] != "return":
-                        ctx.undecided("C02.R7", loc(fi), f"notify raises on the model state {atoms}: {p.exit}")
+                        ctx.violation("C02.R7", fi.qual, loc(fi), "notify completes on a legal event",
+                                      f"under {atoms} (a legal publication event on a consistent state) notify ends with {p.exit[0]} {vkey(p.exit[1])[:80]}", row=atoms)
                         continue
                     idle = any(getattr(x, "name", "") == W.name for x in p.heap["state.idle_workers"])
                     tot, rem = p.heap["state.ongoing_total"], p.heap["state.remaining"]
